@@ -42,20 +42,20 @@ Qed.
 
 Definition q_of (c : case15) : req :=
   match c_kind c with
-  | 0 => {| q_size := c_size c; q_prot := c_prot c; q_flags := c_flags c; q_file := fstart c; q_raw := c_raw c |}
+  | 0 => {| q_size := c_size c; q_prot := c_prot c; q_flags := c_flags c; q_file := fstart c; q_raw := c_raw c; q_huge := huge_opt (c_huge c) |}
   | 1 => {| q_size := c_size c; q_prot := N.lor PROT_READ PROT_WRITE;
-            q_flags := N.lor (N.lor MAP_ANONYMOUS MAP_NORESERVE) MAP_PRIVATE; q_file := None; q_raw := None |}
+            q_flags := N.lor (N.lor MAP_ANONYMOUS MAP_NORESERVE) MAP_PRIVATE; q_file := None; q_raw := None; q_huge := None |}
   | 2 => {| q_size := c_size c; q_prot := N.lor PROT_READ PROT_WRITE; q_flags := N.lor MAP_NORESERVE MAP_SHARED;
-            q_file := Some (match fstart c with Some s => s | None => 0 end); q_raw := None |}
-  | 3 => {| q_size := c_size c; q_prot := c_prot c; q_flags := c_flags c; q_file := fstart c; q_raw := None |}
+            q_file := Some (match fstart c with Some s => s | None => 0 end); q_raw := None; q_huge := None |}
+  | 3 => {| q_size := c_size c; q_prot := c_prot c; q_flags := c_flags c; q_file := fstart c; q_raw := None; q_huge := None |}
   | 5 => match fstart c with
          | Some s => {| q_size := c_size c; q_prot := N.lor PROT_READ PROT_WRITE;
-                        q_flags := N.lor MAP_NORESERVE MAP_SHARED; q_file := Some s; q_raw := None |}
+                        q_flags := N.lor MAP_NORESERVE MAP_SHARED; q_file := Some s; q_raw := None; q_huge := None |}
          | None => {| q_size := c_size c; q_prot := N.lor PROT_READ PROT_WRITE;
-                      q_flags := N.lor (N.lor MAP_ANONYMOUS MAP_NORESERVE) MAP_PRIVATE; q_file := None; q_raw := None |}
+                      q_flags := N.lor (N.lor MAP_ANONYMOUS MAP_NORESERVE) MAP_PRIVATE; q_file := None; q_raw := None; q_huge := None |}
          end
   | _ => {| q_size := c_size c; q_prot := c_prot c; q_flags := c_flags c; q_file := None;
-            q_raw := Some (match c_raw c with Some a => a | None => 0 end) |}
+            q_raw := Some (match c_raw c with Some a => a | None => 0 end); q_huge := None |}
   end.
 
 Definition post (br : res region * list ev) (base : option N) : res (region * option N) * list ev :=
@@ -146,9 +146,10 @@ Lemma ok_accept c o : reasons c = [] -> (c_raw c <> None \/ o_probe o <> 0) ->
   | Some (_, s) => o_hasfile o = true /\ o_start o = s /\ o_samefd o = true
   | None => o_hasfile o = false end ->
   ((doc_shared c || hasbit (o_flags o) 1) = true -> (o_coh1 o = 1 /\ o_coh2 o = 1) \/ o_coh1 o = 2) ->
+  o_huge o = c_huge c ->
   ok_C15 c o = true.
 Proof.
-  intros E P R S F Fi C. unfold ok_C15. rewrite E, R, S, !N.eqb_refl.
+  intros E P R S F Fi C HG. unfold ok_C15. rewrite E, R, S, HG, !N.eqb_refl.
   assert (OS : (match c_raw c with Some _ => false | None => o_probe o =? 0 end) = false).
   { destruct (c_raw c); [reflexivity|]. destruct P as [P|P]; [contradiction|].
     destruct (N.eqb_spec (o_probe o) 0); [contradiction|reflexivity]. }
@@ -189,15 +190,31 @@ Proof.
   - destruct (N.testbit f 4) eqn:T; [reflexivity|]. apply land_pow2_zero in T. contradiction.
 Qed.
 
-Lemma C15_model_ok_lemma : forall c probe k, wf15 c -> c_page c = 2 ^ k -> probe_wf c probe ->
+Lemma q_of_huge c : wf15 c -> huge_ok (c_kind c) (c_huge c) = true -> huge_code (q_huge (q_of c)) = c_huge c.
+Proof.
+  intros W H. pose proof (kind_cases c W) as K. unfold huge_ok in H. apply andb_true_iff in H. destruct H as [H3 H0].
+  apply N.ltb_lt in H3. unfold q_of.
+  destruct K as [K|[K|[K|[K|[K|K]]]]]; rewrite K in *; cbn [N.eqb Pos.eqb orb] in H0; cbn [q_huge].
+  - assert (X : c_huge c = 0 \/ c_huge c = 1 \/ c_huge c = 2) by lia.
+    destruct X as [->|[->| ->]]; reflexivity.
+  - apply N.eqb_eq in H0. rewrite H0. reflexivity.
+  - apply N.eqb_eq in H0. rewrite H0. reflexivity.
+  - apply N.eqb_eq in H0. rewrite H0. reflexivity.
+  - apply N.eqb_eq in H0. rewrite H0. reflexivity.
+  - apply N.eqb_eq in H0. rewrite H0. destruct (fstart c); reflexivity.
+Qed.
+
+Lemma C15_model_ok_lemma : forall c probe k, wf15 c -> huge_ok (c_kind c) (c_huge c) = true ->
+  c_page c = 2 ^ k -> probe_wf c probe ->
   ok_C15 c (run_C15 c probe) = true.
 Proof.
-  intros c probe k W Hp PW.
+  intros c probe k W HK Hp PW.
+  pose proof (q_of_huge c W HK) as HQ.
   destruct (q_of_facts c W) as [F1 [F2 [F3 [F4 F5]]]].
   unfold run_C15. rewrite (construct_cases c (os_of c probe) k W Hp).
   unfold build_result, post, request_region, mmap_ev. rewrite F1, F2, F3.
   unfold os_of. cbn [os_page os_filesize os_mmap_ok].
-  remember (q_prot (q_of c)) as qp. remember (q_flags (q_of c)) as qf.
+  remember (q_prot (q_of c)) as qp. remember (q_flags (q_of c)) as qf. remember (q_huge (q_of c)) as qh.
   assert (EX : explicit_flags c = true -> qp = c_prot c /\ qf = c_flags c).
   { intros E. rewrite E in F4. exact F4. }
   unfold probe_wf in PW.
@@ -215,12 +232,12 @@ Proof.
            ++ destruct (c_file c) as [[? ?]|]; cbn [o_res obs_err berr_code]; apply (base_reason c b Hb B).
            ++ destruct (c_file c) as [[? ?]|]; reflexivity.
         -- destruct RS as [RS|RS]; [lia|].
-           apply ok_accept; cbn [o_res o_size o_prot o_flags o_hasfile o_start o_samefd o_coh1 o_coh2 g_size g_prot g_flags g_file g_owned g_addr]; auto.
+           apply ok_accept; cbn [o_res o_size o_prot o_flags o_hasfile o_start o_samefd o_coh1 o_coh2 o_huge g_huge g_size g_prot g_flags g_file g_owned g_addr]; auto.
            ++ left. rewrite Hr. discriminate.
            ++ unfold fstart. destruct (c_file c) as [[? ?]|]; auto.
            ++ intros _. right. unfold coh_tested. cbn [g_owned]. rewrite andb_false_r. reflexivity.
       * destruct RS as [[]|RS].
-        apply ok_accept; cbn [o_res o_size o_prot o_flags o_hasfile o_start o_samefd o_coh1 o_coh2 g_size g_prot g_flags g_file g_owned g_addr]; auto.
+        apply ok_accept; cbn [o_res o_size o_prot o_flags o_hasfile o_start o_samefd o_coh1 o_coh2 o_huge g_huge g_size g_prot g_flags g_file g_owned g_addr]; auto.
         -- left. rewrite Hr. discriminate.
         -- unfold fstart. destruct (c_file c) as [[? ?]|]; auto.
         -- intros _. right. unfold coh_tested. cbn [g_owned]. rewrite andb_false_r. reflexivity.
@@ -262,7 +279,8 @@ Proof.
                                                  | Some b => if W64 <=? b + c_size c then [6] else []
                                                  | None => [] end ->
         probe = 1 ->
-        let g := {| g_addr := None; g_size := c_size c; g_prot := qp; g_flags := qf; g_file := fstart c; g_owned := true |} in
+        let g := {| g_addr := None; g_size := c_size c; g_prot := qp; g_flags := qf; g_file := fstart c; g_owned := true;
+                    g_huge := qh |} in
         let l := l0 ++ [EvMmap (c_size c) qp qf (match fstart c with Some _ => true | None => false end)
                                (match fstart c with Some s => s | None => 0 end) true] in
         ok_C15 c
@@ -285,7 +303,8 @@ Proof.
                   o_d1 := Z.to_N (foot (c_page c) l');
                   o_d2 := Z.to_N (foot (c_page c) (l' ++ drop_region g0));
                   o_coh1 := if t then 1 else 2;
-                  o_coh2 := if t then (if hasbit (g_flags g0) MAP_SHARED then 1 else 0) else 2 |}
+                  o_coh2 := if t then (if hasbit (g_flags g0) MAP_SHARED then 1 else 0) else 2;
+                  o_huge := huge_code (g_huge g0) |}
            end) = true).
       { intros l0 FT RB P1 g l. subst g l. cbn [g_size].
         assert (FA : forall a b, foot (c_page c) (a ++ b) = (foot (c_page c) a + foot (c_page c) b)%Z).
@@ -299,7 +318,7 @@ Proof.
             * cbn [o_d2 obs_err drop_region g_owned g_size]. rewrite !FA, FT. cbn [foot].
               replace (0 + (Z.of_N (round_up (c_size c) (c_page c)) + 0) + (0 - Z.of_N (round_up (c_size c) (c_page c))))%Z with 0%Z by lia.
               reflexivity.
-          + apply ok_accept; cbn [o_res o_size o_prot o_flags o_hasfile o_start o_samefd o_coh1 o_coh2 o_probe g_size g_prot g_flags g_file g_owned g_addr]; auto.
+          + apply ok_accept; cbn [o_res o_size o_prot o_flags o_hasfile o_start o_samefd o_coh1 o_coh2 o_probe o_huge g_huge g_size g_prot g_flags g_file g_owned g_addr]; auto.
             * right. rewrite P1. discriminate.
             * unfold fstart. destruct (c_file c) as [[? ?]|]; auto.
             * intros DS. match goal with |- context [coh_tested ?c ?g] => destruct (coh_tested c g) eqn:T end; [left|right; reflexivity].
@@ -308,7 +327,7 @@ Proof.
               unfold coh_tested in T. cbn [g_owned g_file g_flags g_prot g_size] in T.
               repeat (apply andb_true_iff in T; let H := fresh "T" in destruct T as [T H]).
               rewrite F5; [reflexivity|exact DS|]. destruct (fstart c); [discriminate|discriminate].
-        - apply ok_accept; cbn [o_res o_size o_prot o_flags o_hasfile o_start o_samefd o_coh1 o_coh2 o_probe g_size g_prot g_flags g_file g_owned g_addr]; auto.
+        - apply ok_accept; cbn [o_res o_size o_prot o_flags o_hasfile o_start o_samefd o_coh1 o_coh2 o_probe o_huge g_huge g_size g_prot g_flags g_file g_owned g_addr]; auto.
           + right. rewrite P1. discriminate.
           + unfold fstart. destruct (c_file c) as [[? ?]|]; auto.
           + intros DS. match goal with |- context [coh_tested ?c ?g] => destruct (coh_tested c g) eqn:T end; [left|right; reflexivity].
